@@ -1,6 +1,6 @@
 #!/bin/sh
 # tools/thorough_all.sh : run the thorough tier of every property on the unchanged tree, with timings
-cd /verif
+cd "$(dirname "$0")/.." || exit 2
 for i in 19 11 15 16 02 17 18 14 08 04 12 03 01 05 07 09 13 10 06; do
   t0=$(date +%s)
   out=$(timeout 7200 bin/check C$i thorough 2>&1); rc=$?
